@@ -464,7 +464,7 @@ def run(tier, seed):
                        'incl. two NaN objects) x b in {0,1} x 8 key choices (columns, lists, functions), seeded tables of 4-5 rows: permutation, ordered, stable, '
                        'idempotent; 8 explicit value orders against a rank oracle. A case is non-trivial when the inputs are not all the same object.'
                        % (len(names), len(names), len(dict_order_universe()), len(dict_order_universe()), 4 if quick else 5, ', length 5 over 6 of them' if quick else '', 25 if quick else 49, 5 if quick else 7, 3 if quick else 4),
-                  exhaustive=False, scope='universe of %d values; lists <= %d; tables <= %d rows (all) and 5 rows (sampled)' % (len(names), 5, 3 if quick else 4))
+                  exhaustive=False, scope='universe of %d values + %d dicts/neighbours in every insertion order; lists <= %d; tables <= %d rows (all) and 5 rows (sampled)' % (len(names), len(dict_order_universe()), 5, 3 if quick else 4))
     m = cmp_matrix(c, u, names)
     check_cmp_laws(c, u, names, m)
     check_dict_order(c)
